@@ -111,6 +111,8 @@ pub struct Finding {
 pub enum Injected {
     None,
     Crash,
+    /// the compilation was cut short at the planned compilation step
+    CompileCrash,
     Budget,
     Guard(String),
     /// the run was stopped because a hook recorded a violation
@@ -216,6 +218,9 @@ pub struct Ctx {
     /// the caller decides from it which handed-out values no variable refers to any more)
     pub keep_globals: bool,
     pub last_globals: Vec<Object>,
+    /// compilation steps seen so far in this run (statements and expressions, any depth)
+    pub compile_step: u64,
+    pub compile_crash_at: Option<u64>,
 }
 
 impl Ctx {
@@ -254,6 +259,8 @@ impl Ctx {
             base_frames: 0,
             keep_globals: false,
             last_globals: Vec::new(),
+            compile_step: 0,
+            compile_crash_at: None,
         }
     }
 
@@ -950,6 +957,30 @@ fn h_access(addr: usize) {
     });
 }
 
+fn h_compile() -> bool {
+    if in_harness() {
+        return false;
+    }
+    CTX.try_with(|c| {
+        let mut ctx = match c.try_borrow_mut() {
+            Ok(c) => c,
+            Err(_) => return false,
+        };
+        if !ctx.active {
+            return false;
+        }
+        let k = ctx.compile_step;
+        ctx.compile_step += 1;
+        if ctx.compile_crash_at == Some(k) && ctx.injected == Injected::None {
+            ctx.injected = Injected::CompileCrash;
+            ctx.fold.u64(0xC0C4);
+            return true;
+        }
+        false
+    })
+    .unwrap_or(false)
+}
+
 fn h_print(text: &str) -> bool {
     let _ = CTX.try_with(|c| {
         if let Ok(mut ctx) = c.try_borrow_mut() {
@@ -1031,6 +1062,7 @@ pub fn install_hooks() {
         access: h_access,
         print: h_print,
         gc: h_gc,
+        compile: h_compile,
     });
 }
 
